@@ -255,6 +255,63 @@ def register(ck, op, key, what, call, earlier):
     brk(ck, "oracle", f"failure seen only inside this process: {key}", what + " | call=" + json.dumps(call)[:500])
 
 
+def judge_flow(by_key, flow, known=None):
+    """Run a cross-operator flow in this process; judge every call against fresh strict inference."""
+    known = _known_keys() if known is None else known
+    out = []
+    for i, (c, sp) in enumerate(zip(flow["calls"], L.run_flow(by_key, flow))):
+        if sp is None:
+            continue
+        op = by_key[L.call_op_key(c)]
+        call = dict(c, vars=flow["vars"])
+        key, what, info = judge(op, call, sp)
+        out.append((i, op, key, what, info, call, sp))
+    return out
+
+
+def sub_flow(flow, idxs):
+    """the flow restricted to some of its calls (results of dropped calls become plain typed arguments)"""
+    keep = sorted(idxs)
+    vars_ = copy.deepcopy(flow["vars"])
+    for v in vars_:
+        ro = v.get("result_of")
+        if ro:
+            if ro[0] in keep:
+                v["result_of"] = [keep.index(ro[0]), ro[1]]
+            else:
+                del v["result_of"]
+    return {"vars": vars_, "calls": [flow["calls"][i] for i in keep], "shared": flow.get("shared"), "kind": flow.get("kind")}
+
+
+def register_flow(ck, flow, i, op, key, what, call):
+    """witness for a failure of call #i of a flow: the call alone if that fails in a fresh process,
+    otherwise the shortest prefix pair that does"""
+    uses_result = any(flow["vars"][v].get("result_of") for a in call["args"] for v in (a if isinstance(a, list) else [a]) if v is not None)
+    if not uses_result:
+        alone = {k: v for k, v in call.items()}
+        alone["vars"] = [dict(v, **({} if not v.get("result_of") else {})) for v in flow["vars"]]
+        if confirm({"op_key": op.key, "call": alone}, key, "single"):
+            ck.failure(key, what, {"op_key": op.key, "call": alone})
+            return
+    hkey = f"history:shared-var:{op.name}"
+    if any(f["key"] == hkey for f in ck.failures):
+        return
+    what2 = (f"{op.name}: call #{i + 1} of a sequence of different operators sharing a Var ({flow.get('kind')}) is answered wrongly "
+             f"only after the earlier calls: " + what)
+    deps = {flow["vars"][v]["result_of"][0] for a in call["args"] for v in (a if isinstance(a, list) else [a])
+            if v is not None and flow["vars"][v].get("result_of")}
+    for j in range(i - 1, -1, -1):
+        f2 = sub_flow(flow, deps | {j, i})
+        if confirm({"flow": f2}, hkey, "pair"):
+            ck.failure(hkey, what2, {"flow": f2})
+            return
+    f2 = sub_flow(flow, set(range(i + 1)))
+    if confirm({"flow": f2}, hkey, "history"):
+        ck.failure(hkey, what2, {"flow": f2})
+        return
+    brk(ck, "oracle", f"failure seen only inside this process: {key}", what[:600])
+
+
 def shrink_history(op, hist, key):
     """keep only (one earlier call, the failing call) if that still fails with the same key"""
     n = len(hist["calls"])
@@ -426,6 +483,131 @@ def kind_cases(rng, ops, n):
     return cases
 
 
+def sweep(ck, work, rng, stats, per_op, families):
+    """The independent generated calls of `work` (operators, in order): oracle + correspondence."""
+    known_keys = _known_keys()
+    made: dict = collections.defaultdict(list)  # calls already made in this process, per operator
+
+    def one_case(op, reqs, pending):
+        call = L.gen_call(rng, op)
+        if "skip" in call:
+            per_op[op.key]["skipped"] += 1
+            stats["skipped:" + call["skip"]] += 1
+            return
+        families[call["family"]] += 1
+        sp = L.run_spox(op, call)
+        key, what, info = judge(op, call, sp)
+        per_op[op.key][info["class"]] += 1
+        ck.count((op.key, info["class"], call["family"], len(call["attrs"]), tuple(type(a).__name__ for a in call["args"])))
+        if key is not None:
+            if key in known_keys:
+                ck.failure(key, what, {"op_key": op.key, "call": call})
+            elif not any(f["key"] == key for f in ck.failures):
+                register(ck, op, key, what, call, made[op.key])
+        else:
+            ck.sample({"op": op.key, "call": call, "verdict": info["class"]}, limit=4)
+        if "skip" not in call and len(made[op.key]) < 60:
+            made[op.key].append(call)
+        for oe in sp.get("obs_errors", []):
+            brk(ck, "correspondence", "not observable: " + oe.split(":")[0], oe)
+        try:
+            req = L.model_request(op, call, sp)
+        except Exception as e:  # noqa: BLE001
+            stats["not_observable"] += 1
+            brk(ck, "correspondence", "constructor call not observable (model request)", f"{type(e).__name__}: {e}"[:300])
+            return
+        if req is None:
+            stats["no_node_observed"] += 1
+            if sp["raised"] is None:  # (a constructor may raise before it creates the node)
+                brk(ck, "correspondence", "no node object observed for a call", f"e.g. {op.key}: {sp['raised']}: {sp.get('msg')}"[:300])
+            return
+        reqs.append(req)
+        pending.append((op, call, sp))
+
+    CH = 3000
+    sent = 0
+    for lo in range(0, len(work), CH):
+        reqs, pending = [], []
+        for op in work[lo:lo + CH]:
+            try:
+                one_case(op, reqs, pending)
+            except Exception as e:  # noqa: BLE001  (never crash the sweep; the verdicts of other cases stand)
+                stats["case_errors"] += 1
+                brk(ck, "harness", "a generated call could not be run", f"e.g. {op.key}: {type(e).__name__}: {e}"[:300])
+        answers = ck.driver().ask_many("C05", reqs) if reqs else []
+        sent += len(reqs)
+        if len(answers) != len(reqs):
+            brk(ck, "correspondence", "driver", f"{len(answers)} answers for {len(reqs)} requests")
+        for (op, call, sp), ans in zip(pending, answers):
+            correspond_case(ck, op, call, sp, ans, stats)
+        if ck.thorough and (lo // CH) % 10 == 9:
+            ck.log(f"... {lo + CH} calls")
+        if len(ck.broken_items) >= MAX_BROKEN and len(ck.failures) >= 5:
+            ck.log("many mismatches and failures already - stopping the sweep early")
+            break
+    return sent
+
+
+
+N_SLICES = 32  # fixed, so that the cases of a seed do not depend on the number of CPUs
+
+
+def _sweep_worker(args):
+    """One slice of the thorough sweep in a forked worker: returns plain data, never raises."""
+    seed, idx, keys = args
+    try:
+        ck = core.Check("C05", "thorough", seed)
+        by_key = {o.key: o for o in L.load_vocabulary()}
+        work = [by_key[k] for k in keys]
+        rng = random.Random(f"C05-{seed}-{idx}")
+        stats, families = collections.Counter(), collections.Counter()
+        per_op = collections.defaultdict(collections.Counter)
+        sent = sweep(ck, work, rng, stats, per_op, families)
+        if ck._driver:
+            ck._driver.close()
+        return {"idx": idx, "sent": sent, "stats": dict(stats), "families": dict(families),
+                "per_op": {k: dict(v) for k, v in per_op.items()}, "failures": ck.failures,
+                "known": ck.known_hits, "broken": ck.broken_items, "evaluations": ck.evaluations,
+                "distinct": list(ck._distinct), "suppressed": _suppressed[0]}
+    except BaseException as e:  # noqa: BLE001
+        return {"idx": idx, "error": f"{type(e).__name__}: {e}"[:300]}
+
+
+def parallel_sweep(ck, work, stats, per_op, families):
+    import multiprocessing as mp
+    import os
+
+    ck.driver()  # build the model executable once, before forking
+    slices = [[o.key for o in work[i::N_SLICES]] for i in range(N_SLICES)]
+    nproc = max(1, min(16, os.cpu_count() or 1, N_SLICES))
+    sent = 0
+    try:
+        with mp.get_context("fork").Pool(nproc) as pool:
+            results = pool.map(_sweep_worker, [(ck.seed, i, sl) for i, sl in enumerate(slices)], chunksize=1)
+    except Exception as e:  # noqa: BLE001
+        brk(ck, "harness", "worker pool failed; sweep run in-process", f"{type(e).__name__}: {e}"[:300])
+        return sweep(ck, work, ck.rng, stats, per_op, families)
+    for r in sorted(results, key=lambda r: r["idx"]):
+        if "error" in r:
+            brk(ck, "harness", "a sweep worker failed", f"slice {r['idx']}: {r['error']}")
+            continue
+        sent += r["sent"]
+        stats.update(r["stats"])
+        families.update(r["families"])
+        for k, v in r["per_op"].items():
+            per_op[k].update(v)
+        for f in r["failures"]:
+            ck.failure(f["key"], f["what"], f["case"])
+        for h in r["known"]:
+            ck.failure(h["key"], h["what"], h["case"])
+        for b in r["broken"]:
+            brk(ck, b["kind"], b["name"], b["detail"])
+        ck.evaluations += r["evaluations"]
+        ck._distinct.update(tuple(x) if isinstance(x, list) else x for x in r["distinct"])
+        _suppressed[0] += r["suppressed"]
+    return sent
+
+
 # ----------------------------------------------------------------------------------- run
 def _budget(ck, op):
     if op.name in L.SUBGRAPH_OPS:
@@ -518,72 +700,58 @@ def run(ck: core.Check):
     ck.log(f"{hstats['histories']} call histories, {hstats['calls']} calls")
     ck.cov["histories"] = dict(hstats)
 
+    # 1b. cross-operator flows: one Var (constant / argument / earlier result) through different operators
+    fstats = collections.Counter()
+    mods = [m for m, _, _ in L.MODULES[:5]]
+    reqs, pending = [], []
+    for _ in range(ck.pick(700, 9000)):
+        try:
+            flow = L.gen_flow(rng, rng.choice(mods))
+            if flow is None:
+                fstats["not_generated"] += 1
+                continue
+            fstats["flows"] += 1
+            fstats["kind:" + flow["kind"]] += 1
+            for i, op, key, what, info, call, sp in judge_flow(by_key, flow, known):
+                fstats["calls"] += 1
+                fstats[info["class"]] += 1
+                ck.count(("flow", op.key, info["class"], i, flow["kind"]))
+                if key is not None:
+                    if key in known:
+                        ck.failure(key, what, {"op_key": op.key, "call": call})
+                    elif not any(f["key"] == key for f in ck.failures):
+                        register_flow(ck, flow, i, op, key, what, call)
+                try:
+                    req = L.model_request(op, call, sp)
+                except Exception as e:  # noqa: BLE001
+                    brk(ck, "correspondence", "constructor call not observable (model request)", f"{type(e).__name__}: {e}"[:300])
+                    continue
+                if req is not None:
+                    reqs.append(req)
+                    pending.append((op, call, sp))
+        except Exception as e:  # noqa: BLE001
+            stats["case_errors"] += 1
+            brk(ck, "harness", "a flow could not be run", f"{type(e).__name__}: {e}"[:300])
+        if len(reqs) >= 3000:
+            for (op_, call, sp), ans in zip(pending, ck.driver().ask_many("C05", reqs)):
+                correspond_case(ck, op_, call, sp, ans, stats)
+            reqs, pending = [], []
+    if reqs:
+        for (op_, call, sp), ans in zip(pending, ck.driver().ask_many("C05", reqs)):
+            correspond_case(ck, op_, call, sp, ans, stats)
+    ck.log(f"{fstats['flows']} cross-operator flows, {fstats['calls']} calls")
+    ck.cov["flows"] = dict(fstats)
+
     # 1. generated calls
     work = []
     for op in ops:
         for _ in range(_budget(ck, op)):
             work.append(op)
-    known_keys = _known_keys()
-    made: dict = collections.defaultdict(list)  # calls already made in this process, per operator
-
-    def one_case(op, reqs, pending):
-        call = L.gen_call(rng, op)
-        if "skip" in call:
-            per_op[op.key]["skipped"] += 1
-            stats["skipped:" + call["skip"]] += 1
-            return
-        families[call["family"]] += 1
-        sp = L.run_spox(op, call)
-        key, what, info = judge(op, call, sp)
-        per_op[op.key][info["class"]] += 1
-        ck.count((op.key, info["class"], call["family"], len(call["attrs"]), tuple(type(a).__name__ for a in call["args"])))
-        if key is not None:
-            if key in known_keys:
-                ck.failure(key, what, {"op_key": op.key, "call": call})
-            elif not any(f["key"] == key for f in ck.failures):
-                register(ck, op, key, what, call, made[op.key])
-        else:
-            ck.sample({"op": op.key, "call": call, "verdict": info["class"]}, limit=4)
-        if "skip" not in call and len(made[op.key]) < 60:
-            made[op.key].append(call)
-        for oe in sp.get("obs_errors", []):
-            brk(ck, "correspondence", "not observable: " + oe.split(":")[0], oe)
-        try:
-            req = L.model_request(op, call, sp)
-        except Exception as e:  # noqa: BLE001
-            stats["not_observable"] += 1
-            brk(ck, "correspondence", "constructor call not observable (model request)", f"{type(e).__name__}: {e}"[:300])
-            return
-        if req is None:
-            stats["no_node_observed"] += 1
-            if sp["raised"] is None:  # (a constructor may raise before it creates the node)
-                brk(ck, "correspondence", "no node object observed for a call", f"e.g. {op.key}: {sp['raised']}: {sp.get('msg')}"[:300])
-            return
-        reqs.append(req)
-        pending.append((op, call, sp))
-
-    rng.shuffle(work)  # a chunk mixes operators; order is still a function of the seed
-    CH = 3000
-    sent = 0
-    for lo in range(0, len(work), CH):
-        reqs, pending = [], []
-        for op in work[lo:lo + CH]:
-            try:
-                one_case(op, reqs, pending)
-            except Exception as e:  # noqa: BLE001  (never crash the sweep; the verdicts of other cases stand)
-                stats["case_errors"] += 1
-                brk(ck, "harness", "a generated call could not be run", f"e.g. {op.key}: {type(e).__name__}: {e}"[:300])
-        answers = ck.driver().ask_many("C05", reqs) if reqs else []
-        sent += len(reqs)
-        if len(answers) != len(reqs):
-            brk(ck, "correspondence", "driver", f"{len(answers)} answers for {len(reqs)} requests")
-        for (op, call, sp), ans in zip(pending, answers):
-            correspond_case(ck, op, call, sp, ans, stats)
-        if ck.thorough and (lo // CH) % 10 == 9:
-            ck.log(f"... {lo + CH} calls")
-        if len(ck.broken_items) >= MAX_BROKEN and len(ck.failures) >= 5:
-            ck.log("many mismatches and failures already - stopping the sweep early")
-            break
+    rng.shuffle(work)  # a slice mixes operators; order is still a function of the seed
+    if not ck.thorough:
+        sent = sweep(ck, work, rng, stats, per_op, families)
+    else:
+        sent = parallel_sweep(ck, work, stats, per_op, families)
     ck.log(f"{len(work)} calls generated, {sent} sent to the model")
 
     # 2. kind checks of Inputs(...)
@@ -625,6 +793,7 @@ def run(ck: core.Check):
     ck.assumptions += [
         "onnx.shape_inference.infer_shapes is invariant under injective renaming of value names and ignores graph inputs / initializers the node does not read (hypotheses InferOK of eager_agrees; observed by the oracle, which uses its own names and no extra inputs)",
         "an attribute left at its default denotes the same node whether omitted or written with the schema default (the oracle accepts either representative: ONNX's ArgMax/ArgMin inference treats them differently for rank-0 inputs)",
+        "cross-operator flows: 2-4 calls of different operators in one process through which one Var flows (constant with a value / typed argument / result of the first call) in differently named slots; each call judged against fresh inference",
         "call histories: 2-4 calls of one operator in one process on shared Vars, differing in one facet (output count, one attribute, a constant's value, an optional input, an input shape), both orders; each call judged against fresh inference",
         "If / Loop / Scan / SequenceMap are generated with Identity bodies (over outer-scope values resp. body inputs)",
     ]
@@ -644,6 +813,15 @@ def replay(ck: core.Check, doc) -> bool:
         return bool(ck.broken_items or ck.failures)
     case = doc["case"]
     ops = {o.key: o for o in L.load_vocabulary()}
+    if "flow" in case:
+        known = _known_keys()
+        bad = []
+        for i, op, key, what, info, call, sp in judge_flow(ops, case["flow"], known):
+            print(f"call #{i + 1} {op.key}: {json.dumps(info['spox'], default=str)[:300]} -> {key}")
+            if key is not None and key not in known:
+                print(f"{key}: {what}"[:600])
+                bad.append(key)
+        return bool(bad)
     op = ops[case["op_key"]]
     if "history" in case:
         known = _known_keys()
